@@ -53,6 +53,22 @@ class P(Prop):
                             d["name"] = rng.choice(src)["name"]
                             c["same_name_across_categories"] = True
                             break
+            if kind == "electric" and rng.random() < 0.35:
+                # two gensets of the same rating on one switchboard (they share the load equally, so their outputs coincide)
+                # that burn different fuels / have different curves
+                gs = [d for d in c["plant"]["comps"] if d["cls"] in ("genset", "genset_rect")]
+                for a_ in gs:
+                    tw = [b_ for b_ in gs if b_ is not a_ and b_["swb"] == a_["swb"]]
+                    if tw:
+                        b_ = tw[0]
+                        b_["rated"], b_["cls"] = a_["rated"], a_["cls"]
+                        b_["eff"] = a_.get("eff", b_.get("eff"))
+                        if "eff" in b_ and b_["eff"] is None:
+                            b_.pop("eff")
+                        b_["engine"] = dict(b_.get("engine") or {}, rated=Fraction(a_["rated"]) * Fraction(11, 10), fuel="NATURAL_GAS", cycle="OTTO")
+                        a_["engine"] = dict(a_.get("engine") or {}, rated=Fraction(a_["rated"]) * Fraction(11, 10), fuel="DIESEL", cycle="DIESEL")
+                        c["look_alike_gensets"] = True
+                        break
             c["fuel_spec"] = rng.choice(["IMO", "IMO", "FUEL_EU_MARITIME"])
             comps = c["plant"]["comps" if kind == "electric" else "mech"]
             perm = list(range(len(comps)))
@@ -75,11 +91,17 @@ class P(Prop):
             rowed = lambda g, o: o.power_type.name in ("POWER_SOURCE", "PTI_PTO")
         total = sysrun.snap(res)
         detail = sysrun.snap_detail(res)
+        no_detail = None
+        if kind == "electric":       # the entry point without the detail table must give the same totals
+            from feems.fuel import FuelSpecifiedBy
+            import numpy as np
+            with np.errstate(all="ignore"):
+                no_detail = sysrun.snap(sysm.get_fuel_energy_consumption_running_time_scalar(fuel_specified_by=FuelSpecifiedBy[case["fuel_spec"]]))
         per = []
         for gid, comps in groups:
             rs = sysrun.component_results(comps, inp["dt"], case["fuel_spec"])
             per.append({"id": gid, "names": [o.name for o in comps], "res": rs, "rowed": [bool(rowed(None, o)) for o in comps]})
-        return {"total": total, "detail": detail, "groups": per}
+        return {"total": total, "detail": detail, "groups": per, "no_detail": no_detail}
 
     def run(self, case):
         from feems.exceptions import InputError
@@ -134,6 +156,10 @@ class P(Prop):
                 return f"system total {k} = {x} but the per-component figures add up to {y}"
             if k.startswith("species:") and k not in tot and y != 0:
                 return f"species {k} emitted by a component is missing from the system total"
+        if a.get("no_detail") is not None:
+            d = sysrun.figures_diff(a["total"], a["no_detail"])
+            if d:
+                return f"the totals of the entry point without detail table differ from those with it: {d[:3]}"
         # order-free
         d = sysrun.figures_diff(a["total"], obs["b_total"])
         if d:
@@ -174,6 +200,8 @@ class P(Prop):
 
     def tags(self, case, obs):
         t = ["kind=" + case["kind"], "spec=" + case["fuel_spec"]]
+        if case.get("look_alike_gensets"):
+            t.append("two-gensets-of-equal-rating-and-output-with-different-fuels")
         if case.get("same_name_across_categories"):
             t.append("source-and-storage-of-the-same-name-on-one-switchboard")
         if "rejected" in obs:
